@@ -310,6 +310,12 @@ FUNCS = {
     "np.conj": _elementwise(lambda z: complex(z).conjugate()), "np.conjugate": _elementwise(lambda z: complex(z).conjugate()),
     "np.fromiter": lambda it, dtype=float, count=-1: Arr(list(it)), "set": lambda x=(): set(x), "frozenset": lambda x=(): frozenset(x),
     "dict": lambda x=(): dict(x), "str": str,
+    "np.flatnonzero": lambda m: Arr(i for i, x in enumerate(m.d if isinstance(m, Arr) else m) if x),
+    "np.nonzero": lambda m: (Arr(i for i, x in enumerate(m.d if isinstance(m, Arr) else m) if x),),
+    "np.count_nonzero": lambda m: sum(1 for x in (m.d if isinstance(m, Arr) else m) if x),
+    "np.any": lambda m: any(m.d if isinstance(m, Arr) else m), "np.all": lambda m: all(m.d if isinstance(m, Arr) else m),
+    "np.logical_not": _elementwise(lambda x: not x), "np.logical_and": lambda a, b: a._bin(b, lambda x, y: bool(x and y)),
+    "np.logical_or": lambda a, b: a._bin(b, lambda x, y: bool(x or y)),
     "np.mod": lambda a, b: BIN[ast.Mod](a, b), "np.isclose": lambda a, b, *r, **k: abs(a - b) <= 1e-8,
     "np.concatenate": lambda xs, *a, **k: Arr(v for x in xs for v in (x.d if isinstance(x, Arr) else x)),
     "np.full": lambda n, v, *a, **k: Arr([v] * n) if isinstance(n, int) else (_ for _ in ()).throw(Unsupported("np.full shape")),
@@ -335,6 +341,10 @@ class Interp:
         self.obj_class = obj_class or {}
         self.name_hook = name_hook or {}
         self.call_hook = call_hook
+
+    @staticmethod
+    def is_static(fn):
+        return any((isinstance(d, ast.Name) and d.id == "staticmethod") for d in fn.decorator_list)
 
     def method_of(self, obj, name):
         cls = self.obj_class.get(obj.path)
@@ -591,6 +601,8 @@ class Frame:
                 for st in m.tree.body:
                     if isinstance(st, ast.Assign) and any(isinstance(t, ast.Name) and t.id == oname for t in st.targets):
                         return Frame(self.it, {}, m, self.depth).ev(st.value)
+                    if isinstance(st, ast.AnnAssign) and isinstance(st.target, ast.Name) and st.target.id == oname and st.value is not None:
+                        return Frame(self.it, {}, m, self.depth).ev(st.value)
             return Sym(f"{src}.{oname}" if oname else str(src))
         # plain `import x as y` inside the module
         for st in self.mod.tree.body:
@@ -812,7 +824,8 @@ class Frame:
                     meths = self.it.repo.methods(m0, m0.classes[cls[1]])
                     if c.func.attr in meths:
                         mm, fn, owner = meths[c.func.attr]
-                        return self.it.call_function(fn, [method_of] + args, kwargs, mod=mm, depth=self.depth + 1)
+                        recv = [] if Interp.is_static(fn) else [method_of]
+                        return self.it.call_function(fn, recv + args, kwargs, mod=mm, depth=self.depth + 1)
             if self.it.call_hook is not None:
                 r = self.it.call_hook(method_of.path + "." + c.func.attr, args, kwargs)
                 if not isinstance(r, _Missing):
@@ -876,7 +889,8 @@ class Frame:
             return self._call_local(f[1], args, kwargs)
         if isinstance(f, tuple) and f[0] == "objmethod":
             mm, fn, owner = self.it.method_of(f[1], f[2])
-            return self.it.call_function(fn, [f[1]] + args, kwargs, mod=mm, depth=self.depth + 1)
+            recv = [] if Interp.is_static(fn) else [f[1]]
+            return self.it.call_function(fn, recv + args, kwargs, mod=mm, depth=self.depth + 1)
         if isinstance(f, tuple) and f[0] == "strmethod":
             return getattr(f[1], f[2])(*args)
         if isinstance(f, tuple) and f[0] == "lambda":
